@@ -9,9 +9,10 @@ CHECKS = {
     "C18": {
         "text": ("Every configuration of 1..4 points with coordinates in {-1,0,1} in every ordering (551880 ordered "
                  "configurations, complete) is executed on both real simplex solvers and compared with an exact "
-                 "rational minimum-norm oracle (norm, subset hull membership, weights); thorough adds {-2..2} for "
-                 "k<=3 and five anisotropic/uniform scalings. A finite case space enumerated completely is the "
-                 "strongest statement this family can make."),
+                 "rational minimum-norm oracle (norm, subset hull membership, weights); quick adds the lattice under "
+                 "4 scalings (1e-2, 1e-4, needle 1:1e-5:1e-5, anisotropic 1:1e-3:1e-6; k<=3 complete, k=4 slice), thorough "
+                 "adds {-2..2} for k<=3 and 10 scalings complete (6.9e5 states). A finite case space enumerated completely is "
+                 "the strongest statement this family can make."),
         "design_ref": "DESIGN.md 5 C18",
         "note": "Trusted: CPython fractions, numpy; bounded to the stated lattices (nothing is claimed for off-lattice inputs).",
         "technique": "explicit-state exhaustive enumeration of the input lattice on the real code vs exact rational reference model",
@@ -102,5 +103,15 @@ CHECKS = {
         "design_ref": "DESIGN.md 5 C08",
         "note": "For smooth pairs only lower bounds are used, so a too-large residual that no inscribed ball certifies stays undecided. KF-C08-segment-contact is matched only when the position equals the midpoint of the two extreme support points in the centres-on-axis branch.",
         "technique": "bounded-exhaustive scene-lattice exploration of the real MPR vs SAT-axis / inscribed-ball reference bounds",
+    },
+    "C19": {
+        "text": ("Bounded liveness: 61 collider variants (all types and sizes, aspect-1e4 needles and plates, zero-volume hulls: vertex, "
+                 "segment, planar quad, collinear triple) fully crossed as ordered pairs x 9 lattice placements (coincident, exactly "
+                 "touching along x/z/diagonal, 1e-9 gap, half overlapping, apart, small generic, same object twice) + orientation pairs; "
+                 "every narrow-phase entry point (11 + epa) runs under a counted budget of 1000 support evaluations and a per-state "
+                 "watchdog; outputs must be finite; the only tolerated exception is epa's capacity assertion."),
+        "design_ref": "DESIGN.md 5 C19",
+        "note": "Bounded statement: no explored input needs more than 1000 evaluations; nothing is claimed about all inputs. self_collision.detect is exercised by C06.",
+        "technique": "bounded-exhaustive degenerate-geometry lattice on the real entry points under a support-call budget and watchdog sandbox",
     },
 }
